@@ -834,6 +834,23 @@ class NAHooks(Hooks):
                     return I.equal(a, b, None)
                 return Opaque('np.isclose')
             return isclose
+        if name == 'allclose':
+            def allclose(a, b, *r, **k):
+                # a tolerance test: identical operands are close; operands
+                # that are not identical may or may not be (close does not
+                # mean equal - tiny unequal values pass `atol`), so both
+                # outcomes are explored (`Interp.decide` forks)
+                try:
+                    x, y = _np.broadcast_arrays(na_of(a, None).a,
+                                                na_of(b, None).a)
+                except ValueError:
+                    raise PyRaise('ValueError', None)
+                if all(I.truth_value(I.equal(p, q, None), None)
+                       for p, q in zip(x.flat, y.flat)):
+                    return True
+                return I.decide('np.allclose(%r, %r)' % (
+                    [repr(z) for z in x.flat], [repr(z) for z in y.flat]))
+            return allclose
         if name in ('array_equiv', 'array_equal'):
             def aeq(a, b, **k):
                 x, y = na_of(a, None).a, na_of(b, None).a
